@@ -19,6 +19,7 @@ use crate::internal::{DirEntry, MiniAllocator, Sectors, Version};
 pub const NSA: usize = 4;
 pub const NSTOR: usize = SEC * (1 + NSA + 10);
 pub type FS = ArrFile<NSTOR>;
+pub type PS = PtrFile<NSTOR>;
 
 pub struct StorPre {
     pub s_len: u64,
@@ -27,6 +28,7 @@ pub struct StorPre {
 }
 
 pub struct Parts {
+    pub em: [EM; 4],
     pub data: [u8; NSTOR],
     pub len: usize,
     pub fat: Vec<u32>,
@@ -60,8 +62,12 @@ pub fn small_parts(minifat: &[u32], s_start: u32, s_len: u64, o_start: u32, o_le
     let mut s1 = em_blank();
     s1.ty = 2; s1.nlen = 1; s1.name[0] = b's'; s1.color = 1; s1.start = s_start; s1.len = s_len; s1.left = 2;
     let mut s2 = em_blank();
-    s2.ty = 2; s2.nlen = 1; s2.name[0] = b'o'; s2.color = 1; s2.start = o_start; s2.len = o_len;
-    em[0] = root; em[1] = s1; em[2] = s2;
+    s2.ty = 2; s2.nlen = 1; s2.name[0] = b'o'; s2.color = 1; s2.start = o_start; s2.len = o_len; s2.left = 3;
+    // slot 3: an empty storage "d" with arbitrary metadata
+    let mut s3 = em_blank();
+    s3.ty = 1; s3.nlen = 1; s3.name[0] = b'd'; s3.color = 1;
+    s3.state = kani::any(); s3.ct = kani::any(); s3.mt = kani::any(); s3.d1 = kani::any(); s3.d4 = kani::any();
+    em[0] = root; em[1] = s1; em[2] = s2; em[3] = s3;
     let mut entries: Vec<DirEntry> = Vec::with_capacity(5);
     let mut s = 0;
     while s < 4 {
@@ -84,7 +90,7 @@ pub fn small_parts(minifat: &[u32], s_start: u32, s_len: u64, o_start: u32, o_le
         if minifat[i] == FREE { mfree.push(i as u32); }
         i += 1;
     }
-    Parts { data, len, fat, entries, mf, mfree }
+    Parts { em, data, len, fat, entries, mf, mfree }
 }
 
 pub fn assemble<F>(file: F, len: usize, fat: Vec<u32>, entries: Vec<DirEntry>, mf: Vec<u32>, mfree: Vec<u32>) -> MiniAllocator<F> {
@@ -187,121 +193,150 @@ fn check_other_untouched(m: &MiniAllocator<FS>, o_len: u64, before: &[u8; NSTOR]
     let dir = macc::directory(m);
     let o = &dacc::dir_entries(dir)[2];
     assert!(o.stream_len == o_len && o.start_sector == o_first, "C07: another stream's entry changed");
-    if o_len > 0 {
-        let p: u64 = kani::any();
-        kani::assume(p < o_len && p < 64);
-        // the other stream occupies one mini sector `o_first` in sector 3
-        assert!(image_byte(m, 2, p) == before[soff(3) + MINI * o_first as usize + p as usize], "C07/C08: another stream's bytes changed");
+    // the other stream occupies one mini sector `o_first` in sector 3
+    let mut ok = true;
+    let mut p = 0u64;
+    while p < o_len && p < 64 {
+        ok &= image_byte(m, 2, p) == before[soff(3) + MINI * o_first as usize + p as usize];
+        p += 1;
     }
+    assert!(ok, "C07/C08: another stream's bytes changed");
 }
 
 // --------------------------------------------------------------------- write
-// Small stream s = mini sectors 0->1 (len 100), other o = mini sector 2 (len 64).
-// Write n symbolic bytes (n <= 40) at symbolic offset off <= len: cases 2a.
-#[kani::proof]
-#[kani::stub(std::fmt::format, stub_format)]
-#[kani::stub(std::io::copy, stub_io_copy)]
-#[kani::unwind(70)]
-fn stor_write_small() {
-    let mut m = mk_small(&[1, EOC, EOC], 0, 100, 2, 64);
-    let before: [u8; NSTOR] = m.inner().data;
-    let off: u64 = kani::any();
-    kani::assume(off <= 100);
-    let n: usize = kani::any();
-    kani::assume(n <= 40);
-    let buf: [u8; 40] = kani::any();
-    let r = sacc::write_data(&mut m, 1, off, &buf[..n]);
-    assert!(r.is_ok(), "C01: write failed on a well-formed state");
-    let new_len = if off + n as u64 > 100 { off + n as u64 } else { 100 };
-    let e = &dacc::dir_entries(macc::directory(&m))[1];
-    assert!(e.stream_len == new_len, "C01: stream length after write is not max(old, offset + n)");
-    check_placement(&m, 1);
-    let p: u64 = kani::any();
-    kani::assume(p < new_len);
-    let got = image_byte(&m, 1, p);
-    if p >= off && p < off + n as u64 {
-        assert!(got == buf[(p - off) as usize], "C01: written byte does not read back");
-    } else if p < 100 {
-        let ms = if p < 64 { 0 } else { 1 };
-        assert!(got == before[soff(3) + MINI * ms + (p % 64) as usize], "C01/C07: byte outside the written range changed");
-    }
-    check_other_untouched(&m, 64, &before, 2);
-    kani::cover!(off + n as u64 > 128, "write extends the mini chain");
-    kani::cover!(n == 0, "empty write");
-    std::mem::forget(m);
-}
-
-// ---------------------------------------------------------------------- read
-#[kani::proof]
-#[kani::stub(std::fmt::format, stub_format)]
-#[kani::unwind(70)]
-fn stor_read_small() {
-    let mut m = mk_small(&[1, EOC, EOC], 0, 100, 2, 64);
-    let before: [u8; NSTOR] = m.inner().data;
-    let off: u64 = kani::any();
-    kani::assume(off <= 200);
-    let n: usize = kani::any();
-    kani::assume(n <= 70);
-    let mut buf = [0u8; 70];
-    let r = sacc::read_data(&mut m, 1, off, &mut buf[..n]);
-    assert!(r.is_ok(), "C01/C05: read failed on a well-formed state");
-    let got = r.unwrap();
-    let want = if off >= 100 { 0 } else if (100 - off) < n as u64 { (100 - off) as usize } else { n };
-    assert!(got == want, "C01/C06: read count is not min(n, len - offset)");
-    if got > 0 {
-        let k = any_usize_below(got);
-        let p = off + k as u64;
-        let ms = if p < 64 { 0 } else { 1 };
-        assert!(buf[k] == before[soff(3) + MINI * ms + (p % 64) as usize], "C01/C04: read returns bytes that differ from the stream's content in the image");
-    }
-    let j = any_usize_below(NSTOR);
-    assert!(m.inner().data[j] == before[j], "C12/C07: a read modified the image");
-    kani::cover!(got > 0 && off < 64 && off + got as u64 > 64, "read crosses a mini sector boundary");
-    std::mem::forget(m);
-}
-
-// -------------------------------------------------------------------- resize
-// grow / shrink inside the mini stream, with arbitrary slack and free mini sectors
-macro_rules! stor_resize_small {
-    ($name:ident, $mf:expr, $slen:expr, $ostart:expr) => {
+// Control values (offset, length, new size) are concrete per instance and sit
+// on / next to the 64-byte mini sector boundary; data bytes are symbolic.
+macro_rules! stor_write_case {
+    ($name:ident, $off:expr, $n:expr) => {
         #[kani::proof]
         #[kani::stub(std::fmt::format, stub_format)]
         #[kani::stub(std::io::copy, stub_io_copy)]
-        #[kani::unwind(70)]
+        #[kani::unwind(210)]
+        fn $name() {
+            // s = mini sectors 0->1 (100 bytes), o = mini sector 2 (64 bytes)
+            let mut m = mk_small(&[1, EOC, EOC], 0, 100, 2, 64);
+            let before: [u8; NSTOR] = m.inner().data;
+            let off: u64 = $off;
+            let n: usize = $n;
+            let buf: [u8; 40] = kani::any();
+            let r = sacc::write_data(&mut m, 1, off, &buf[..n]);
+            assert!(r.is_ok(), "C01: write failed on a well-formed state");
+            let new_len = if off + n as u64 > 100 { off + n as u64 } else { 100 };
+            let e = &dacc::dir_entries(macc::directory(&m))[1];
+            assert!(e.stream_len == new_len, "C01: stream length after write is not max(old, offset + n)");
+            check_placement(&m, 1);
+            let mut ok_w = true;
+            let mut ok_k = true;
+            let mut p = 0u64;
+            while p < new_len {
+                let got = image_byte(&m, 1, p);
+                if p >= off && p < off + n as u64 {
+                    ok_w &= got == buf[(p - off) as usize];
+                } else if p < 100 {
+                    let ms = if p < 64 { 0 } else { 1 };
+                    ok_k &= got == before[soff(3) + MINI * ms + (p % 64) as usize];
+                }
+                p += 1;
+            }
+            assert!(ok_w, "C01: written byte does not read back");
+            assert!(ok_k, "C01/C07: byte outside the written range changed");
+            check_other_untouched(&m, 64, &before, 2);
+            kani::cover!(true, "end");
+            std::mem::forget(m);
+        }
+    };
+}
+stor_write_case!(stor_write_mid, 60, 10);      // crosses the 64-byte boundary inside the chain
+stor_write_case!(stor_write_append, 100, 28);  // fills the last mini sector exactly (to 128)
+stor_write_case!(stor_write_extend, 100, 29);  // needs one more mini sector (129)
+stor_write_case!(stor_write_empty, 37, 0);
+
+// ---------------------------------------------------------------------- read
+macro_rules! stor_read_case {
+    ($name:ident, $off:expr, $n:expr) => {
+        #[kani::proof]
+        #[kani::stub(std::fmt::format, stub_format)]
+        #[kani::unwind(210)]
+        fn $name() {
+            let mut m = mk_small(&[2, EOC, EOC], 0, 100, 1, 64); // fragmented: s = 0->2
+            let before: [u8; NSTOR] = m.inner().data;
+            let off: u64 = $off;
+            let n: usize = $n;
+            let mut buf = [0u8; 70];
+            let r = sacc::read_data(&mut m, 1, off, &mut buf[..n]);
+            assert!(r.is_ok(), "C01/C05: read failed on a well-formed state");
+            let got = r.unwrap();
+            let want = if off >= 100 { 0 } else if (100 - off) < n as u64 { (100 - off) as usize } else { n };
+            assert!(got == want, "C01/C06: read count is not min(n, len - offset)");
+            let mut ok = true;
+            let mut k = 0;
+            while k < got {
+                let p = off + k as u64;
+                let ms = if p < 64 { 0 } else { 2 };
+                ok &= buf[k] == before[soff(3) + MINI * ms + (p % 64) as usize];
+                k += 1;
+            }
+            assert!(ok, "C01/C04: read returns bytes that differ from the stream's content in the image (fragmented mini chain)");
+            let j = any_usize_below(SEC * (1 + NSA));
+            assert!(m.inner().data[j] == before[j], "C12/C07: a read modified the image");
+            assert!(m.inner().len == SEC * (1 + NSA), "C12: a read changed the file length");
+            kani::cover!(true, "end");
+            std::mem::forget(m);
+        }
+    };
+}
+stor_read_case!(stor_read_cross, 60, 10);
+stor_read_case!(stor_read_clip, 90, 20);
+stor_read_case!(stor_read_all, 0, 70);
+stor_read_case!(stor_read_past, 100, 5);
+
+// -------------------------------------------------------------------- resize
+macro_rules! stor_resize_case {
+    ($name:ident, $mf:expr, $ostart:expr, $new:expr) => {
+        #[kani::proof]
+        #[kani::stub(std::fmt::format, stub_format)]
+        #[kani::stub(std::io::copy, stub_io_copy)]
+        #[kani::unwind(210)]
         fn $name() {
             let mfa = $mf;
-            let old: u64 = $slen;
+            let old: u64 = 100;
             let mut m = mk_small(&mfa, 0, old, $ostart, 64);
             let before: [u8; NSTOR] = m.inner().data;
-            let new: u64 = kani::any();
-            kani::assume(new <= 300);
+            let new: u64 = $new;
             let r = sacc::resize(&mut m, 1, new);
             assert!(r.is_ok(), "C01: resize failed on a well-formed state");
             let e = &dacc::dir_entries(macc::directory(&m))[1];
             assert!(e.stream_len == new, "C01/C06: length after set_len");
             check_placement(&m, 1);
-            if new > 0 {
-                let p: u64 = kani::any();
-                kani::assume(p < new);
+            let mut kept = true;
+            let mut zero = true;
+            let mut p = 0u64;
+            while p < new {
                 let got = image_byte(&m, 1, p);
                 if p < old {
                     let ms = if p < 64 { 0usize } else { mfa[0] as usize };
-                    assert!(got == before[soff(3) + MINI * ms + (p % 64) as usize], "C01: kept byte changed by resize");
+                    kept &= got == before[soff(3) + MINI * ms + (p % 64) as usize];
                 } else {
-                    assert!(got == 0, "C08: byte gained by growing the stream is not zero");
+                    zero &= got == 0;
                 }
+                p += 1;
             }
+            assert!(kept, "C01: kept byte changed by resize");
+            assert!(zero, "C08: byte gained by growing the stream is not zero");
             check_other_untouched(&m, 64, &before, $ostart);
-            kani::cover!(new > old && new <= 128, "grow inside the last mini sector");
-            kani::cover!(new > 192, "grow into reused/appended mini sectors");
-            kani::cover!(new < 64 && new > 0, "shrink");
+            kani::cover!(true, "end");
             std::mem::forget(m);
         }
     };
 }
-// A: s = 0->1, o = 2, growth appends mini sectors
-stor_resize_small!(stor_resize_small_append, [1, EOC, EOC], 100, 2);
-// B: s = 0->1, o = 3, mini sector 2 is FREE with arbitrary stale content: growth reuses it
-stor_resize_small!(stor_resize_small_reuse, [1, EOC, FREE, EOC], 100, 3);
+// A: s = 0->1, o = 2: grow inside the last mini sector / to the boundary / one past / by two sectors; shrink; to zero
+stor_resize_case!(stor_resize_in_sector, [1, EOC, EOC], 2, 120);
+stor_resize_case!(stor_resize_to_128, [1, EOC, EOC], 2, 128);
+stor_resize_case!(stor_resize_to_129, [1, EOC, EOC], 2, 129);
+stor_resize_case!(stor_resize_shrink_64, [1, EOC, EOC], 2, 64);
+stor_resize_case!(stor_resize_shrink_63, [1, EOC, EOC], 2, 63);
+stor_resize_case!(stor_resize_to_0, [1, EOC, EOC], 2, 0);
+// B: mini sector 2 is FREE with arbitrary stale content: growth reuses it
+stor_resize_case!(stor_resize_reuse, [1, EOC, FREE, EOC], 3, 200);
 // C: fragmented chain s = 0->2, o = 1
-stor_resize_small!(stor_resize_small_frag, [2, EOC, EOC], 100, 1);
+stor_resize_case!(stor_resize_frag, [2, EOC, EOC], 1, 150);
